@@ -19,7 +19,7 @@ Definition f3nokey := mkFile 3 true false.
 (* RocksDB, cache off; one query, the primary of the served path is updated, one partial reload.
    The query runs up to answered (RLock, pin, RUnlock, locate, cache check, auth, answer = 7 actions),
    then the update and the whole reload (7 actions), then the rest of the query *)
-Definition cfg_f5 := mkC true false false false false [mkQS 1 0] [Partial] [mkES 0 f2].
+Definition cfg_f5 := mkC true false false false false [mkQS 1 0 true false] [Partial] [mkES 0 f2].
 Definition sched_f5 := rep 7 (TQ 0) ++ [TE 0] ++ rep 7 (TR 0) ++ rep 3 (TQ 0).
 Notation st_f5_final := (run nof nof cfg_f5 (init cfg_f5 [(0, f1)] 0) sched_f5).
 
@@ -46,7 +46,7 @@ Qed.
 (* cdb, cache on; query 0 computes on generation 1 and is parked before its cache insert
    (8 actions); a full reload to path 1 completes (7 actions, purge included); query 0 inserts
    and writes; query 1 (same key) starts afterwards and is served the stale entry *)
-Definition cfg_f6 := mkC false true false false false [mkQS 1 7; mkQS 2 7] [Full 1] [].
+Definition cfg_f6 := mkC false true false false false [mkQS 1 7 true false; mkQS 2 7 true false] [Full 1] [].
 Definition sched_f6 := rep 8 (TQ 0) ++ rep 7 (TR 0) ++ rep 2 (TQ 0) ++ rep 6 (TQ 1).
 Notation st_f6_final := (run nof nof cfg_f6 (init cfg_f6 [(0, f1); (1, f2)] 0) sched_f6).
 
@@ -107,7 +107,7 @@ Qed.
 (* ---------------------------------------------------------------- satisfiable hypotheses *)
 (* cdb: a full reload to path 1 completes, then a query runs: it reads generation 2 at epoch 1 only;
    then a failing reload (missing path 9) and a partial reload follow *)
-Definition cfg_ex := mkC false true false true false [mkQS 1 0; mkQS 1 0] [Full 1; Full 9; Partial] [mkES 1 (mkFile 5 true true)].
+Definition cfg_ex := mkC false true false true false [mkQS 1 0 true false; mkQS 1 0 true false] [Full 1; Full 9; Partial] [mkES 1 (mkFile 5 true true)].
 Definition sched_ex := rep 7 (TR 0) ++ rep 10 (TQ 0) ++ rep 3 (TR 1) ++ [TE 0] ++ rep 7 (TR 2) ++ rep 10 (TQ 1).
 Definition st_ex := run nof nof cfg_ex (init cfg_ex [(0, f1); (1, f2)] 0) sched_ex.
 
